@@ -329,6 +329,9 @@ func check(id, tier string) int {
 		if wr.agg == nil {
 			// the worker died: Go fatal error (attributed via the start marker) or harness trouble
 			marker, _ := os.ReadFile(wr.logPath + ".cur")
+			if cap, err := os.ReadFile(wr.logPath + ".fd2"); err == nil && len(cap) > 0 {
+				wr.stderr += "\n[captured fd 2 of the worker]\n" + string(cap) // C17 workers redirect their stderr
+			}
 			if strings.Contains(wr.stderr, "HARNESS BUG") || !(strings.Contains(wr.stderr, "fatal error:") || strings.Contains(wr.stderr, "stack exceeds")) || wr.exitCode == -9 {
 				fmt.Fprintln(os.Stderr, tail(wr.stderr, 60))
 				return die2("worker %d died (exit %d) at %s", wr.idx, wr.exitCode, strings.TrimSpace(string(marker)))
